@@ -381,3 +381,153 @@ func lemmaRawKidsIsRender(last, mid branchFormat, n *Node, i int) {
 //@   invariant sofar: !wfail ==> out[w] == old(out[w]) ++ specRawAll(roots, $i)
 //@   invariant frame: forall v any :: {out[v]} v != w ==> out[v] == old(out[v])
 //@   invariant sticky: old(wfail) ==> wfail
+
+// ---------------------------------------------------------------------------------------------
+// counter.go (verified as a sequential counter; the mutex is not modelled)
+
+//@ func gtree.newCounter
+//@   ensures fresh: fresh(result) && result.n == 0
+//@ func gtree.counter.next
+//@   requires nn: c != nil
+//@   modifies c.n
+//@   ensures inc [C09]: c.n == old(c.n) + 1 && result == c.n
+//@ func gtree.counter.reset
+//@   requires nn: c != nil
+//@   modifies c.n
+//@   ensures zero [C09]: c.n == 0
+//@ func gtree.counter.current
+//@   requires nn: c != nil
+//@   ensures cur [C09]: result == c.n
+
+// ---------------------------------------------------------------------------------------------
+// tree_handler_programmably.go: building trees
+
+//@ func gtree.NewRoot
+//@   modifies idxCounter.n
+//@   ensures root [C03,C13]: fresh(result) && result.name == text && result.hierarchy == 1 && result.parent == nil && len(result.children) == 0
+
+//@ func gtree.Node.Add
+//@   requires nn: parent != nil
+//@   requires attached: parent.hierarchy == 1 || parent.parent != nil
+//@   modifies parent.children, idxCounter.n
+//@   ensures dedupe [C03,C13]: old(hasChildNamed(parent, text)) ==> contains(old(parent.children), result) && result.name == text && parent.children == old(parent.children) && !fresh(result)
+//@   ensures append [C03,C13]: !old(hasChildNamed(parent, text)) ==> fresh(result) && result.name == text && result.hierarchy == parent.hierarchy + 1 && result.parent == parent && len(result.children) == 0 && parent.children == old(parent.children) ++ seqof(result)
+//@   ensures frame [C13]: (forall q *Node :: {q.parent} !fresh(q) ==> q.parent == old(q.parent)) && (forall q *Node :: {q.name} !fresh(q) ==> q.name == old(q.name)) && (forall q *Node :: {q.hierarchy} !fresh(q) ==> q.hierarchy == old(q.hierarchy))
+
+//@ func gtree.validateTreeRoot
+//@   ensures nilnode [C03]: root == nil ==> result == ErrNilNode
+//@   ensures notroot [C03]: root != nil && root.hierarchy != 1 ==> result == ErrNotRoot
+//@   ensures ok [C03]: root != nil && root.hierarchy == 1 ==> result == nil
+
+// ---------------------------------------------------------------------------------------------
+// simple_tree_grow_spreader.go (the fused From-Root text path)
+
+//@ func gtree.defaultGrowSpreaderSimple.assembleAndPrint
+//@   requires nn: dgs != nil && dgs.defaultGrowerSimple != nil && current != nil
+//@   requires attached: current.hierarchy == 1 || current.parent != nil
+//@   modifies Node.brnch.value, Node.brnch.path, out, wfail
+//@   decreases down(current)
+//@   ensures render [C03,C13]: result == nil && !wfail ==> out[dgs.w] == old(out[dgs.w]) ++ specRender(dgs.defaultGrowerSimple.lastNodeFormat, dgs.defaultGrowerSimple.intermedialNodeFormat, current)
+//@   ensures frame: forall v any :: {out[v]} v != dgs.w ==> out[v] == old(out[v])
+//@   ensures sticky [C14]: old(wfail) ==> wfail
+//@   ensures noval [C03]: !dgs.defaultGrowerSimple.enabledValidation ==> result == nil
+//@ loop gtree.defaultGrowSpreaderSimple.assembleAndPrint#1
+//@   invariant sofar: !wfail ==> out[dgs.w] == old(out[dgs.w]) ++ specLine(dgs.defaultGrowerSimple.lastNodeFormat, dgs.defaultGrowerSimple.intermedialNodeFormat, current) ++ specRenderKids(dgs.defaultGrowerSimple.lastNodeFormat, dgs.defaultGrowerSimple.intermedialNodeFormat, current, $i)
+//@   invariant frame: forall v any :: {out[v]} v != dgs.w ==> out[v] == old(out[v])
+//@   invariant sticky: old(wfail) ==> wfail
+
+//@ func gtree.defaultGrowSpreaderSimple.growAndSpread
+//@   requires nn: dgs != nil && dgs.defaultGrowerSimple != nil
+//@   requires roots: forall k int :: {roots[k]} 0 <= k && k < len(roots) ==> roots[k] != nil && roots[k].hierarchy == 1
+//@   modifies Node.brnch.value, Node.brnch.path, out, wfail, dgs.w
+//@   ensures render [C03,C13]: result == nil && !wfail ==> out[w] == old(out[w]) ++ specRenderAll(dgs.defaultGrowerSimple.lastNodeFormat, dgs.defaultGrowerSimple.intermedialNodeFormat, roots, len(roots))
+//@   ensures frame: forall v any :: {out[v]} v != w ==> out[v] == old(out[v])
+//@   ensures sticky [C14]: old(wfail) ==> wfail
+//@   ensures noval [C03]: !dgs.defaultGrowerSimple.enabledValidation ==> result == nil
+//@ loop gtree.defaultGrowSpreaderSimple.growAndSpread#1
+//@   invariant w: dgs.w == w
+//@   invariant sofar: !wfail ==> out[w] == old(out[w]) ++ specRenderAll(dgs.defaultGrowerSimple.lastNodeFormat, dgs.defaultGrowerSimple.intermedialNodeFormat, roots, $i)
+//@   invariant frame: forall v any :: {out[v]} v != w ==> out[v] == old(out[v])
+//@   invariant sticky: old(wfail) ==> wfail
+
+// ---------------------------------------------------------------------------------------------
+// simple_tree_walker.go
+
+// specPreorder: the nodes of the subtree of n in depth-first pre-order (the order of the text output's lines).
+//@ spec gtree.specPreorder
+//@   requires nn: n != nil
+//@   decreases down(n), 1, 0
+func specPreorder(n *Node) []*Node {
+	return append([]*Node{n}, specPreorderKids(n, len(n.children))...)
+}
+
+//@ spec gtree.specPreorderKids
+//@   requires nn: n != nil
+//@   decreases down(n), 0, i
+func specPreorderKids(n *Node, i int) []*Node {
+	if i <= 0 || i > len(n.children) {
+		return nil
+	}
+	return append(specPreorderKids(n, i-1), specPreorder(n.children[i-1])...)
+}
+
+//@ spec gtree.specPreorderAll
+//@   decreases i
+func specPreorderAll(roots []*Node, i int) []*Node {
+	if i <= 0 || i > len(roots) {
+		return nil
+	}
+	return append(specPreorderAll(roots, i-1), specPreorder(roots[i-1])...)
+}
+
+// The user callback of Walk*: cbTrace records the nodes it has been shown, cbFailed that it has returned an
+// error (after which it must not be called again), cbLastErr the last value it returned.
+// Assumed of the callback: it does not modify the tree being walked.
+//@ ghost var cbTrace []*Node
+//@ ghost var cbFailed bool
+//@ ghost var cbLastErr error
+//@ protocol walkCallback(wn)
+//@   requires live [C05]: !cbFailed
+//@   requires node [C05]: wn != nil && wn.origin != nil
+//@   modifies cbTrace, cbFailed, cbLastErr
+//@   ensures rec: cbTrace == old(cbTrace) ++ seqof(wn.origin) && cbFailed == (result != nil) && cbLastErr == result
+
+//@ func gtree.defaultWalkerSimple.walkNode
+//@   param callback follows walkCallback
+//@   requires nn: current != nil
+//@   requires live: !cbFailed
+//@   modifies cbTrace, cbFailed, cbLastErr
+//@   decreases down(current)
+//@   ensures all [C05]: result == nil ==> !cbFailed && cbTrace == old(cbTrace) ++ specPreorder(current)
+//@   ensures stop [C05]: result != nil ==> cbFailed && result == cbLastErr
+//@ loop gtree.defaultWalkerSimple.walkNode#1
+//@   invariant sofar: !cbFailed && cbTrace == old(cbTrace) ++ seqof(current) ++ specPreorderKids(current, $i)
+
+//@ func gtree.defaultWalkerSimple.walk
+//@   param callback follows walkCallback
+//@   requires roots: forall k int :: {roots[k]} 0 <= k && k < len(roots) ==> roots[k] != nil
+//@   requires live: !cbFailed
+//@   modifies cbTrace, cbFailed, cbLastErr
+//@   ensures all [C05]: result == nil ==> !cbFailed && cbTrace == old(cbTrace) ++ specPreorderAll(roots, len(roots))
+//@   ensures stop [C05]: result != nil ==> cbFailed && result == cbLastErr
+//@ loop gtree.defaultWalkerSimple.walk#1
+//@   invariant sofar: !cbFailed && cbTrace == old(cbTrace) ++ specPreorderAll(roots, $i)
+
+//@ func gtree.WalkerNode.Name
+//@   requires nn: wn != nil && wn.origin != nil
+//@   ensures name [C05]: result == wn.origin.name
+//@ func gtree.WalkerNode.Branch
+//@   requires nn: wn != nil && wn.origin != nil
+//@   ensures branch [C05]: result == wn.origin.brnch.value
+//@ func gtree.WalkerNode.Row
+//@   requires nn: wn != nil && wn.origin != nil
+//@   ensures row [C05]: result ++ "\n" == specRawLine(wn.origin)
+//@ func gtree.WalkerNode.Level
+//@   requires nn: wn != nil && wn.origin != nil
+//@   ensures level [C05]: result == wn.origin.hierarchy
+//@ func gtree.WalkerNode.HasChild
+//@   requires nn: wn != nil && wn.origin != nil
+//@   ensures haschild [C05]: result == (len(wn.origin.children) > 0)
+//@ func gtree.WalkerNode.Path
+//@   requires nn: wn != nil && wn.origin != nil
+//@   ensures path [C05]: result == (wn.origin.hierarchy == 1 ? wn.origin.name : wn.origin.brnch.path)
